@@ -6,6 +6,22 @@ FIX_COMMITS = subprocess.run(["git","-C","/repo","log","--format=%h %s","5dec6d4
 
 # id -> (technique, level text, level note, design ref)
 CHECKS = {
+ "C04": ("edge-cut reachability / dominance over the login sequence's CFG plus shape rules on Authenticate and handshake.Valid (go/ssa)",
+         "Structural necessary conditions decided on every CFG path of the login sequence: with the Authenticate-true edges deleted no dispatch, outbox send, registration, store mutator or notification (also as deferred call) is reachable and the only connection writes are handshake reply, ban notice and one error reply; Authenticate can only yield true through the bcrypt comparison of the looked-up account's hash with the supplied password; the login/password arguments and the bound account come from the login transaction (guest only for the empty login); the handler table is only dispatched from the post-login loop.",
+         "Trusted: bcrypt, go/ssa. Not decided: byte-exact content of the error reply, timing of the ban notice, anything about accounts/files being 'untouched' beyond absence of reachable mutator calls.",
+         "4/C04"),
+ "C06": ("loop-induction recognition + edge-cut reachability + cell identity on the two account-creation handlers and the disconnect handler (go/ssa)",
+         "For both protocol paths that create accounts: Create is only reachable through the exit of a counting loop over bits 0..63 in which an iteration with requested.IsSet(i) and not requester.Authorize(i) (same i) can neither complete nor reach Create, and the tested bitmap cell is the one stored; for disconnect: every ban and the Disconnect are unreachable when the same target connection's Authorize(23) is true. This decides the property for all 2^64 x 2^64 bitmap pairs by a per-bit argument on the loop shape.",
+         "Trusted: go/ssa loop shapes (for-loop and range-over-int are recognised; any other formulation is reported undecided = fails). Not decided: HandleSetUser/modify raising privileges (not part of the statement).",
+         "4/C06"),
+ "C16": ("constant folding of Set/IsSet for all 64 bit numbers + closed-world table extraction from the AST compared with a protocol table",
+         "Exhaustive over finite tables: Set/IsSet index and mask folded for i=0..63 equal i/8 and 0x80>>(i%8); the YAML load table, save table and struct tags are extracted closed-world and shown to be the same bijection between 40 names and the protocol's privilege numbers (spec/access.json); the legacy list form is a byte copy; access bytes reach the wire unmodified. Because each key touches exactly one bit and each bit one key, save-then-load is the identity on defined bits for all 2^40 combinations by independence (argument in DESIGN.md, not machine-checked, hence level other rather than proof).",
+         "Trusted: yaml.v3's map/struct behaviour, spec/access.json. Accepted idioms are enumerated; a table-driven rewrite is reported undecided.",
+         "4/C16"),
+ "C17": ("edge-cut reachability with ban-state atoms, symbolic key comparison, must-pass-through on BanFile.Add and Disconnect (go/ssa)",
+         "Structural necessary conditions: IsBanned sits after the handshake and dominates every login-processing step; those steps are unreachable on the permanent and not-yet-expired edges and reachable on the not-banned and expired edges; lookup key and ban key are the same function of the same remote address of the disconnected connection; BanDuration folds to 30 min and the two ban options store now+BanDuration / nil; Add persists before every success return onto the file Load reads; the disconnect handler starts Disconnect on every permitted path and Disconnect unregisters, notifies and closes.",
+         "Trusted: time package, os.Rename. Not decided: wall-clock behaviour, a real restart (only: writes what it later reads).",
+         "4/C17"),
  "C05": ("edge-cut reachability over handler CFGs against a protocol privilege table (go/ssa, resolved callees)",
          "Structural necessary conditions decided exhaustively on the source: for all 43 registered transaction handlers and every (context, privilege, effect) row of the protocol table, no effect site is reachable once the Authorize(privilege)-true edges are deleted; the handler tests exactly the protocol's privileges; Authorize has the nil-account/IsSet shape. This replaces the quantifier over 2^64 bitmaps and field contents by one over CFG paths, which is finite and fully enumerated.",
          "Trusted: Go type checker, go/ssa, spec/privileges.json (written from the protocol document), the effect classifier table (listed in evidence). Not decided: effects the classifier does not know, content-dependent behaviour inside an allowed effect, the name matching of upload/drop-box folders.",
